@@ -70,6 +70,7 @@ type Options struct {
 	Verbose   bool
 	PLo, PHi  int
 	PSet      bool
+	NoEvidence bool // do not rewrite evidence/<prop>.json (replay command)
 }
 
 // initState runs the package initialisers of netpoll and mux once.
@@ -621,9 +622,11 @@ func RunProperty(opt Options) int {
 	}
 	ev := Evidence{PropertyID: opt.Prop, Tier: opt.Tier, Seed: seedEnv(), Level: "model_checking", Coverage: cov,
 		Assumptions: assumptionsFor(opt.Prop, ld), WallS: wall, Violations: nviol}
-	os.MkdirAll(filepath.Join(VerifDir, "evidence"), 0o755)
-	b, _ := json.MarshalIndent(ev, "", " ")
-	os.WriteFile(filepath.Join(VerifDir, "evidence", opt.Prop+".json"), b, 0o644)
+	if !opt.NoEvidence {
+		os.MkdirAll(filepath.Join(VerifDir, "evidence"), 0o755)
+		b, _ := json.MarshalIndent(ev, "", " ")
+		os.WriteFile(filepath.Join(VerifDir, "evidence", opt.Prop+".json"), b, 0o644)
+	}
 	fmt.Printf("property=%s tier=%s harness_instances=%d paths=%d obligations=%d discharged=%d unknown=%d violations=%d solver_queries=%d solver_time=%.1fs wall=%.1fs\n",
 		opt.Prop, opt.Tier, len(jobs), paths, obl, dis, unk, nviol, queries, solverT.Seconds(), wall)
 	if len(broken) > 0 && exit == 0 {
